@@ -100,6 +100,24 @@ pub fn lead_byte_strings() -> Vec<String> {
     out
 }
 
+/// chars that some layer treats specially although str / [u8] functions must not: byte order mark, replacement
+/// char, Unicode white space and line separators, zero-width chars, fullwidth digit, DEL, ESC
+pub const SPECIAL_CHARS: [char; 16] = [
+    '\u{feff}', '\u{fffd}', '\u{2028}', '\u{2029}', '\u{85}', '\u{a0}', '\u{200b}', '\u{200d}', '\u{3000}', '\u{1680}', '\u{202f}',
+    '\u{205f}', '\u{ff10}', '\u{7f}', '\u{1b}', '\u{fffe}',
+];
+
+/// each special char alone, at the start, in the middle and at the end of a short text
+pub fn special_char_strings() -> Vec<String> {
+    let mut out = Vec::new();
+    for c in SPECIAL_CHARS {
+        for s in [format!("{c}"), format!("{c}a,b 1"), format!("a{c},b"), format!("a,b 1{c}"), format!("{c}{c}"), format!(" {c} ")] {
+            out.push(s);
+        }
+    }
+    out
+}
+
 /// All sequences of length 0..=max over `alphabet`, shortest first; calls `f` with each.
 pub fn for_each_seq<T: Copy>(alphabet: &[T], max: usize, mut f: impl FnMut(&[T])) {
     let mut buf: Vec<T> = Vec::with_capacity(max);
